@@ -130,12 +130,15 @@ class Matcher:
     is never rendered while fl > 0 ("forces every enclosing group to break"). lenient: a bare hardline may be rendered in a flat
     scope (what the engine does on purpose); the rest of the enclosing flat scopes is then unconstrained."""
 
-    def __init__(self, term, stream, width, ribbon_frac, smart, strict=True, c05=False, c06=False, node_budget=400000):
+    def __init__(self, term, stream, width, ribbon_frac, smart, strict=True, c05=False, c06=False, node_budget=400000, forcing=True):
         self.term, self.st = term, stream
         self.W = width
         self.R = max(0, min(width, round(ribbon_frac * width)))
         self.smart = smart
         self.strict, self.c05, self.c06 = strict, c05, c06
+        # forcing=False: the clause 'hardline / always_break force every enclosing group to break' is not enforced at all
+        # (used by C05/C06 to recover the group decisions even from layouts that C04 rejects)
+        self.forcing = forcing
         self.dead = set()
         self.nodes = 0
         self.node_budget = node_budget
@@ -208,10 +211,10 @@ class Matcher:
                 self.dead.add(key)
                 return False
             if k == 'hardline':
-                if fl > 0 and self.strict:
+                if fl > 0 and self.strict and self.forcing:
                     self.dead.add(key)
                     return False
-                if not self.strict and (fl > 0 or mode != BREAK):
+                if self.forcing and not self.strict and (fl > 0 or mode != BREAK):
                     self.used_lenient = True
                     rest = self.relax(rest)
                 if pos < len(items) and items[pos] == ('nl', ind):
@@ -263,7 +266,7 @@ class Matcher:
                 self.dead.add(key)
                 return False
             if k == 'ab':
-                if fl > 0:
+                if fl > 0 and self.forcing:
                     self.dead.add(key)
                     return False
                 stack = self.push((t[1], BREAK, ind, fl), rest)
